@@ -41,6 +41,8 @@ def run(pid, tier):
     for s in suffixes:
         for v in case_variants(s):
             hist.append([("D", "f." + v, b"x"), ("F", "d/g." + v, b"y"), ("A", "e/h." + v, "to/h." + v, b"z")])
+        # contents that are valid UTF-8 but not ASCII, binary contents: the type follows the suffix alone
+        hist.append([("D", "u." + s, "\u00e9\u2192 caf\u00e9".encode()), ("F", "d/w." + s, b"\xc3\xa9\n"), ("D", "bin." + s, bytes([0, 159, 146, 150, 255]))])
         # names with more than one dot: the suffix is what follows the last one
         hist.append([("D", "lib.min." + s, b"x"), ("F", "d/logo.2x." + s, b"y"), ("A", "e/h.v1." + s, "to/h.v1." + s, b"z"), ("D", "k.css." + s, b"w")])
     for s in unknown:
